@@ -85,8 +85,12 @@ def handle(job):
         sp = exp["stored"]
         want = init_precs[k] if sp == [-1] else tw_precs[len(sp) - 1][k]
         d = _rel(kept[t]["precs"][k], want)
-        worst["precs_twin"] = max(worst["precs_twin"], d)
-        if d > 1e-3:
+        # roots of int16 statistics, themselves stored as int16: the quantisation noise of the statistics is
+        # amplified by the root's conditioning (observed up to 1e-3); a root computed from the statistics of
+        # another step differs by O(1/T)
+        pk = "precs_twin_int16" if r.mode == "pmapq" else "precs_twin"
+        worst[pk] = max(worst.get(pk, 0.0), d)
+        if d > (3e-2 if r.mode == "pmapq" else 1e-3):
           mism.append({"clause": "preconditioner_does_not_reflect_statistics_at_refresh", "step": t,
                        "stat": k, "detail": d})
     # warm-up: before Start the update is the graft twin's, from Start on it is not
